@@ -438,6 +438,7 @@ func runLengthCheck(t *testing.T, p harness.Plan) {
 				}
 				c := harness.Case{In: []byte(tf(strings.Repeat(u, l)))}
 				c.SetI("light", 1)
+				harness.NoteInflight("C04", name, &c)
 				res := safePropLocal(c)
 				n++
 				harness.Count(name, &c, true, fmt.Sprintf("unit_%d", ui), fmt.Sprintf("template_%d", ti))
@@ -464,7 +465,7 @@ func safePropLocal(c harness.Case) (r harness.Result) {
 const rule = "every stage (Parse; NextBlock+Extract+Rewrite under a G5 schedule; zero-value InlineParser and HTMLRenderer, nil reference map, blocks without inline parsing; Render under 3 soft-break x IgnoreRaw x FilterTag{nil,GFM,always,never}; AppendBlock; RenderHTML; Format on Buffer and plain Writer; Walk; walks cut short by Pre/Post returning false followed by Format, RenderHTML and Walk again; every accessor) under recover and a watchdog; non-trivial = input has invalid UTF-8, NUL, a lone CR, an unterminated construct at EOF (open bracket, odd backtick count, open comment, odd fence count) or parses to depth >= 16"
 
 func plan() harness.Plan {
-		return harness.Plan{Prop: "C04", Checks: []harness.Check{
+		return harness.Plan{Prop: "C04", Inflight: true, Checks: []harness.Check{
 		{Name: "pipeline", Quick: 40000, Thorough: 600000, Gen: genDoc, Prop: prop, Rule: "G1/G2/G3 inputs: " + rule},
 		{Name: "long", Quick: 60, Thorough: 600, Gen: genLong, Prop: prop, Rule: "G1 long mode 2-16 KB: " + rule},
 		{Name: "run_lengths", Prop: prop, Rule: "enumerated: a run of one unit (37 units: every markdown-significant character, white space, NUL, invalid UTF-8, short openers) at every length in 14 templates (bare, in text, quoted, in a list item, heading, link text and destination, fence info and content, tag attribute, two lines, definition destination, label, code span); a diagonal of the renderer configurations"},
